@@ -6,6 +6,42 @@ import gen
 LEVEL = "proof"
 
 
+def tsm_clauses(res):
+    """a target/source tree over the same particles (dump tsmleaves): each side stores every particle once, in its leaf, bit-identically"""
+    c = res.case
+    D, real, data, nextra, nrhs, periodic = c["cfg"]
+    m = c["meta"]
+    n = len(m["particles"])
+    corr, orc = [], []
+    built = ftree.segments(res.cpp).get("built", [])
+    ls = ftree.segments(res.lean)
+    for side, what in (("s", "source"), ("t", "target")):
+        sl = [ln[1:] for ln in built if ln.startswith(side + "LF ") or ln.startswith(side + "P ")]
+        ll = [ln[1:] for ln in ls.get("built", []) if ln.startswith(side + "LF ") or ln.startswith(side + "P ")]
+        if not sl and not ll:
+            continue
+        if sl != ll:
+            d = [(x, y) for x, y in zip(sl, ll) if x != y][:2]
+            corr.append(("tsm-build", "construction dumps of the %s side of a target/source tree differ (library, model): %r" % (what, d or (len(sl), len(ll)))))
+        tl, tp = ftree.parse_leaves(sl, D)
+        seen_t = [p for _, _, _, ps in tl for p in ps]
+        if sorted(seen_t) != list(range(n)):
+            orc.append(("C06:tsm-once", "%s side of a target/source tree: stored particle indices %r are not exactly 0..%d once each" % (what, sorted(seen_t)[:10], n - 1)))
+        for gi, idx, coord, ps in tl:
+            for p in ps:
+                if p not in tp:
+                    continue
+                leaf_of_p, dbits = tp[p]
+                want = [ftree.to_data_bits(ftree.bits(v, real), real, data) for v in m["particles"][p]]
+                if leaf_of_p != idx:
+                    orc.append(("C06:tsm-leaf", "%s side: particle %d listed in leaf %d but stored under %d" % (what, p, idx, leaf_of_p)))
+                elif dbits != want:
+                    orc.append(("C06:tsm-data", "%s side of a target/source tree: particle %d: stored data %r are not bit-identical copies of the input %r" % (what, p, ["%x" % b for b in dbits], ["%x" % b for b in want])))
+                elif not ftree.contains(c, coord, m["particles"][p][:D]):
+                    orc.append(("C06:tsm-contains", "%s side: particle %d at %r is stored in leaf %d (box coordinate %r) whose box does not contain it" % (what, p, m["particles"][p][:D], idx, coord)))
+    return corr, orc
+
+
 def evaluate(res):
     c = res.case
     D, real, data, nextra, nrhs, periodic = c["cfg"]
@@ -38,6 +74,9 @@ def evaluate(res):
                 orc.append(("C06:data", "particle %d: stored data %r are not bit-identical copies of the input %r" % (p, ["%x" % b for b in dbits], ["%x" % b for b in want])))
             elif not ftree.contains(c, coord, m["particles"][p][:D]):
                 orc.append(("C06:contains", "particle %d at %r is stored in leaf %d (box coordinate %r) whose box does not contain it" % (p, m["particles"][p][:D], idx, coord)))
+    tc, to = tsm_clauses(res)
+    corr += tc
+    orc += to
     z = [ln for ln in built if ln.startswith("Z ")]
     if z and z[0] != "Z 0 0":
         orc.append(("C06:zero", "a fresh tree has non-zero results or expansions: %s" % z[0]))
@@ -54,4 +93,4 @@ def run(rep, tier, seed, replay, proof_ok, proof_msg):
     ftree.standard(rep, tier, seed, replay, proof_ok, proof_msg, "C06", 360, 40000, False, evaluate, export=False)
     rep.assumptions += ["containment is decided in exact rational arithmetic on the library's own corner / leaf width, with a tolerance of 4 ulp of the coordinate type "
                         "(IEEE rounding of (x - corner) / leafWidth can move a point that lies within one rounding of a face to the neighbouring cell; the bit-exact Lean Float/Float32 run reproduces the library's choice)",
-                        "target/source trees: see C09"]
+                        "target/source trees: each side is dumped for the same particle set (dump tsmleaves); separate source / target sets are C09's"]
